@@ -85,3 +85,21 @@ Print Assumptions C14_pow_negative_refuted.
 Theorem C14_sumplus_scaling_refuted : sumplus_of ((Ast.SNum (1 * -1) :: nil) :: nil) <> (-1 * sumplus_of ((Ast.SNum 1 :: nil) :: nil))%Z.
 Proof. exact (@MathSpec.sumplus_scaling_refuted). Qed.
 Print Assumptions C14_sumplus_scaling_refuted.
+
+From NGO Require Import Gen.Tables Model.NegateAgg Link.NegateAggSpec.
+
+Theorem C14_negate_agg_shape : forall (lg : option Ast.guard) (f : Ast.aggfun) (es : list (list Ast.term * list Ast.lit)) (rg : option Ast.guard), negate_agg (Ast.ABodyAgg lg f es rg) = Ast.Ok (Ast.ABodyAgg (neg_guard lg) f es (neg_guard rg)).
+Proof. exact (@NegateAggSpec.negate_agg_shape_proof). Qed.
+Print Assumptions C14_negate_agg_shape.
+
+Theorem C14_negate_agg_keeps_elements : forall (a : Ast.atom) (lg : option Ast.guard) (f : Ast.aggfun) (es : list (list Ast.term * list Ast.lit)) (rg : option Ast.guard), negate_agg a = Ast.Ok (Ast.ABodyAgg lg f es rg) -> exists lg0 rg0 : option Ast.guard, a = Ast.ABodyAgg lg0 f es rg0.
+Proof. exact (@NegateAggSpec.negate_agg_keeps_elements_proof). Qed.
+Print Assumptions C14_negate_agg_keeps_elements.
+
+Theorem C14_negate_agg_involutive : forall a b c : Ast.atom, negate_agg a = Ast.Ok b -> negate_agg b = Ast.Ok c -> c = a.
+Proof. exact (@NegateAggSpec.negate_agg_involutive_proof). Qed.
+Print Assumptions C14_negate_agg_involutive.
+
+Theorem C14_negate_agg_asserts : forall a : Ast.atom, (exists b : Ast.atom, negate_agg a = Ast.Ok b) <-> (exists (lg : option Ast.guard) (f : Ast.aggfun) (es : list (list Ast.term * list Ast.lit)) (rg : option Ast.guard), a = Ast.ABodyAgg lg f es rg) \/ (exists (lg : option Ast.guard) (es : list (Ast.lit * list Ast.lit)) (rg : option Ast.guard), a = Ast.AAgg lg es rg).
+Proof. exact (@NegateAggSpec.negate_agg_asserts_proof). Qed.
+Print Assumptions C14_negate_agg_asserts.
